@@ -177,12 +177,13 @@ func Harness_C17_mercury() {
 	id := vr.OneOf("alert.id", "lmm:planned_work:12", "lmm:alert:34", "other:56")
 	a := &gtfsrt.Alert{}
 	origCause, origEffect := gtfsrt.Alert_UNKNOWN_CAUSE, gtfsrt.Alert_UNKNOWN_EFFECT
-	if vr.Bool("alert.has_cause") {
+	lite := vr.Param("LITE", 0) == 1 // several informed entities: everything else about the alert is fixed
+	if !lite && vr.Bool("alert.has_cause") {
 		origCause = gtfsrt.Alert_Cause(vr.Int("alert.cause", 1, 12))
 		c := origCause
 		a.Cause = &c
 	}
-	if vr.Bool("alert.has_effect") {
+	if !lite && vr.Bool("alert.has_effect") {
 		origEffect = gtfsrt.Alert_Effect(vr.Int("alert.effect", 1, 11))
 		c := origEffect
 		a.Effect = &c
@@ -196,7 +197,11 @@ func Harness_C17_mercury() {
 		stop := vr.Str(vr.T("sel", k, ".stop"))
 		sel := &gtfsrt.EntitySelector{StopId: &stop}
 		en := ent{}
-		switch hConcretize(vr.Int(vr.T("sel", k, ".shape"), 0, 4), 0, 4) {
+		maxShape := 4
+		if lite {
+			maxShape = 1 // no Mercury data, or "xx:NN"
+		}
+		switch hConcretize(vr.Int(vr.T("sel", k, ".shape"), 0, maxShape), 0, maxShape) {
 		case 0: // no Mercury data
 		case 1: // "xx:NN"
 			digits := vr.Chars(vr.T("sel", k, ".priority"), 2, "digit")
@@ -218,7 +223,7 @@ func Harness_C17_mercury() {
 		a.InformedEntity = append(a.InformedEntity, sel)
 		ents = append(ents, en)
 	}
-	hasMercury := vr.Bool("alert.has_mercury")
+	hasMercury := !lite && vr.Bool("alert.has_mercury")
 	created, updated := vr.U64("mercury.created_at"), vr.U64("mercury.updated_at")
 	vr.Assume(created < 253402300800 && updated < 253402300800) // years up to 9999: beyond that json.Marshal of a time fails
 	display := vr.U64("mercury.display_before_active")
@@ -235,11 +240,11 @@ func Harness_C17_mercury() {
 		proto.SetExtension(a, gtfsrt.E_MercuryAlert, ma)
 	}
 	desc := vr.Str("alert.description")
-	hasDesc := vr.Bool("alert.has_description")
+	hasDesc := !lite && vr.Bool("alert.has_description")
 	if hasDesc {
 		a.DescriptionText = &gtfsrt.TranslatedString{Translation: []*gtfsrt.TranslatedString_Translation{{Text: &desc}}}
 	}
-	skipOpt, metaOpt := vr.Bool("opt.skip_timetabled"), vr.Bool("opt.add_metadata")
+	skipOpt, metaOpt := vr.Bool("opt.skip_timetabled"), !lite && vr.Bool("opt.add_metadata")
 	ver := "2.0"
 	msg := &gtfsrt.FeedMessage{Header: &gtfsrt.FeedHeader{GtfsRealtimeVersion: &ver}, Entity: []*gtfsrt.FeedEntity{{Id: &id, Alert: a}}}
 	r, err := gtfs.ParseRealtime(vr.Marshal(msg), &gtfs.ParseRealtimeOptions{Extension: nyctalerts.Extension(nyctalerts.ExtensionOpts{
